@@ -1,5 +1,5 @@
 #!/usr/bin/env python3
-"""confirm_seed.py <src_dir> <Cxx> <n>
+"""confirm_seed.py <src_dir> <Cxx> <n> [--feature]
 
 Independently confirms a seeded change produced by a sub-agent, in a scratch worktree of /repo
 (never in /repo itself): it applies, builds, vets, the existing suite still passes, the demonstration
@@ -8,6 +8,9 @@ fails with the change and passes without it. On success the change is stored as 
 import json, os, shutil, subprocess, sys, time
 
 src, prop, n = sys.argv[1], sys.argv[2], sys.argv[3]
+# --feature: the change adds a feature and the demonstration exercises it, so the demonstration cannot compile
+# without the change; "passes without the change" is then replaced by "does not build without it"
+feature = "--feature" in sys.argv[4:]
 name = f"{prop}-{n}"
 verif = os.path.dirname(os.path.dirname(os.path.abspath(__file__)))
 wt = f"/tmp/confirm/{name}"
@@ -76,8 +79,11 @@ try:
     rc, out = run(f"git apply -R {patch}")
     assert rc == 0, "cannot revert the change: " + out
     rc, out = run(demo_run, timeout=1200)
-    assert rc == 0, "demonstration fails on the clean tree: " + out[-800:]
-    result["demo_without_change"] = "PASS"
+    if feature and rc != 0 and ("[build failed]" in out or "undefined:" in out or "unknown field" in out or "has no field or method" in out):
+        result["demo_without_change"] = "does not build (it exercises the added feature)"
+    else:
+        assert rc == 0, "demonstration fails on the clean tree: " + out[-800:]
+        result["demo_without_change"] = "PASS"
     result["confirmed"] = True
     result["touched"] = touched
     result["demo_where"] = where
